@@ -14,6 +14,7 @@
 package store
 
 import (
+	"bytes"
 	"container/list"
 	"errors"
 	"fmt"
@@ -273,6 +274,11 @@ func (s *CAStore) addToMemoryCache(
 		// difference. Let the caller release the reservation and fall back
 		// to the disk path, which verifies the content.
 		return fmt.Errorf("blob size mismatch: reserved %d bytes, got %d", size, len(data))
+	}
+	// The memory entry is served to readers (data, size and metainfo) as soon as it is added, so it must be
+	// verified against the digest just like the disk path verifies before moving a file into the cache.
+	if err := s.verify(bytes.NewReader(data), name); err != nil {
+		return fmt.Errorf("verify digest: %s", err)
 	}
 	metaInfo, err := s.generateMetadataFromBytes(name, data, pieceLength)
 	if err != nil {
